@@ -2,7 +2,7 @@
    Everything else about C06 (targets, dependency relation, whole argv, cwd, environment) is decided by the
    system-level translation validation in harness/c06.py. *)
 From BFG Require Import Base.Chars Shell.PosixQuote Shell.Sh Make.MakeWrite Make.MakeRead
-  Ninja.NinjaWrite Ninja.NinjaRead Graph.BackendAgree.
+  Ninja.NinjaWrite Ninja.NinjaRead Graph.BackendAgree Graph.Steps Graph.Emit Graph.EmitProofs.
 
 (* Make: GLOBAL_X := g ; tgt: X := $(GLOBAL_X) t ; a recipe reference to X delivers g ++ t *)
 Theorem C06_make_flags : forall uw us v gname g t text_g text_t,
@@ -47,3 +47,38 @@ Theorem C06_backends_agree_on_flags : forall uw us v env gname g t text_g text_t
   via_make = Some (compdb_flags g t) /\ via_ninja = Some (compdb_flags g t).
 Proof. exact backends_agree_on_flags. Qed.
 Print Assumptions C06_backends_agree_on_flags.
+
+Local Open Scope N_scope.
+(* ====================================================================== dependency relation and targets (phase 2)
+   over the emitter model Graph/Emit.v (the Rule / Build tuples the real handlers register; tie: harness/c06.py stage
+   W:emit shares harness/c03.py's comparison of real Edge objects with the model). *)
+
+(* for every step of a shape the builtins create and each output: the Make and the Ninja emitter give its producing
+   rule the same prerequisite set (stamp / phony alias followed, .dir sentinels and PHONY dropped) *)
+Theorem C06_deps : forall has st rs o,
+  shape_ok st = true -> NoDup (outs st) -> emit_make_step st = Some rs -> In o (outs st) ->
+  exists lm ln, make_prereqs rs o = Some lm /\ ninja_prereqs (fst (emit_ninja_step has st)) o = Some ln /\
+                set_eq lm ln.
+Proof. exact backends_same_deps. Qed.
+Print Assumptions C06_deps.
+
+(* for every script the Make emitter accepts: the buildable (non-internal) targets of the two emitters coincide -
+   every step output, all, tests, test, install, uninstall; .stamp, .dir and PHONY are internal *)
+Theorem C06_targets : forall sc rs,
+  emit_make sc = Some rs -> set_eq (make_buildable rs) (ninja_buildable (emit_ninja sc)).
+Proof. exact backends_same_targets. Qed.
+Print Assumptions C06_targets.
+
+(* non-vacuity: a script with a two-output generated source (stamp in Make, phony alias in Ninja), a phony command,
+   tests and install *)
+Definition ex06_script : script :=
+  mkScript [mkStep KCompile [mkOut 10 1; mkOut 11 1] (Some 1) None None [] [] [] [] [] [] [2] false true;
+            mkStep KCommand [mkOut 12 0] None None None [] [] [] [10] [] [] [3] true false]
+           100 101 102 103 104 [10] (Some ([10], [])) true true.
+Example ex06_targets :
+  exists rs, emit_make ex06_script = Some rs /\
+    make_buildable rs = [100; 10; 11; 12; 101; 102; 103; 104] /\
+    ninja_buildable (emit_ninja ex06_script) = [100; 11; 10; 12; 101; 102; 103; 104] /\
+    In (mkM [NStamp 10] [NF 1; NF 2] [NDir 1] true false) rs /\
+    In (mkNB [NPhony] true [] [] []) (emit_ninja ex06_script).
+Proof. eexists. split; [reflexivity|]. repeat split; cbn; tauto. Qed.
